@@ -91,6 +91,111 @@ func (c *Ctx) sharedTypes() map[*types.Named]bool {
 	return out
 }
 
+// mutableTypes: hand-written struct types of the reader packages with a pointer-receiver method that stores into a field
+// of its receiver and that carry no sync.Mutex / RWMutex / Once of their own: objects that change under the hands of
+// whoever holds them (lazy resolvers, cursors). Synchronised types are governed by R17.1 instead.
+func (c *Ctx) mutableTypes() map[*types.Named]bool {
+	if c.mutTypes != nil {
+		return c.mutTypes
+	}
+	out := map[*types.Named]bool{}
+	for _, fn := range c.G.Funcs() {
+		rel, ok := c.P.PkgOf(fn)
+		if !ok || !core.ReaderPkgs[rel] || fn.Synthetic != "" || len(fn.Params) == 0 || fn.Signature.Recv() == nil || !c.P.HandWritten(fn) {
+			continue
+		}
+		n, st := structOf(fn.Params[0].Type())
+		if n == nil || st == nil || out[n] {
+			continue
+		}
+		if _, isPtr := types.Unalias(fn.Params[0].Type()).(*types.Pointer); !isPtr {
+			continue
+		}
+		synced := false
+		for i := 0; i < st.NumFields(); i++ {
+			ts := types.TypeString(st.Field(i).Type(), nil)
+			if ts == "sync.Mutex" || ts == "sync.RWMutex" || ts == "sync.Once" || ts == "*sync.Mutex" || ts == "*sync.RWMutex" {
+				synced = true
+			}
+		}
+		if synced {
+			continue
+		}
+		for _, b := range fn.Blocks {
+			for _, ins := range b.Instrs {
+				if x, ok := ins.(*ssa.Store); ok {
+					if _, isFA := x.Addr.(*ssa.FieldAddr); isFA && core.RootOfAddr(x.Addr) == ssa.Value(fn.Params[0]) {
+						out[n] = true
+					}
+				}
+			}
+		}
+	}
+	c.mutTypes = out
+	return out
+}
+
+// carriesCursor: t is a cursor type, a self-mutating type, or a composite (struct, pointer, slice, map, array) that holds
+// one — a struct{size; rdr io.ReadSeeker} parked in a node shares the reader just like the bare reader would.
+func (c *Ctx) carriesCursor(t types.Type, depth int, withMutable bool) bool {
+	if t == nil || depth > 4 {
+		return false
+	}
+	if isCursorT(t) {
+		return true
+	}
+	if n, _ := structOf(t); withMutable && n != nil && c.mutableTypes()[n] {
+		return true
+	}
+	switch u := types.Unalias(t).Underlying().(type) {
+	case *types.Pointer:
+		return c.carriesCursor(u.Elem(), depth+1, withMutable)
+	case *types.Slice:
+		return c.carriesCursor(u.Elem(), depth+1, withMutable)
+	case *types.Array:
+		return c.carriesCursor(u.Elem(), depth+1, withMutable)
+	case *types.Map:
+		return c.carriesCursor(u.Elem(), depth+1, withMutable)
+	case *types.Struct:
+		if n, _ := structOf(t); n != nil {
+			if n.Obj().Pkg() == nil || !c.P.IsRepoPkg(n.Obj().Pkg()) {
+				return false // foreign struct types (LinkSystem, contexts): not ours to classify
+			}
+		}
+		for i := 0; i < u.NumFields(); i++ {
+			if c.carriesCursor(u.Field(i).Type(), depth+1, withMutable) {
+				return true
+			}
+		}
+	}
+	return false
+}
+
+// valueCarriesCursor applies carriesCursor to the static type of v and, for interface-typed values, to every concrete
+// type the closed-world analysis finds for it.
+func (c *Ctx) valueCarriesCursor(v ssa.Value, withMutable bool) (bool, types.Type) {
+	if core.IsNilConst(v) {
+		return false, nil
+	}
+	vt := v.Type()
+	if mi, ok := v.(*ssa.MakeInterface); ok {
+		vt = mi.X.Type()
+	}
+	if c.carriesCursor(vt, 0, withMutable) {
+		return true, vt
+	}
+	if _, isIface := vt.Underlying().(*types.Interface); isIface {
+		if ts, ok := c.G.ConcreteTypesOf(v); ok {
+			for _, t := range ts {
+				if c.carriesCursor(t, 0, withMutable) {
+					return true, t
+				}
+			}
+		}
+	}
+	return false, nil
+}
+
 // isCursorT: io.Reader / io.Seeker implementations and iterator-like types (Next+Done).
 func isCursorT(t types.Type) bool {
 	if t == nil {
@@ -243,7 +348,7 @@ func c17(c *Ctx) {
 	r.Explain = "C17 (concurrent read-only use): identifies the shared node types (struct types of the reader packages implementing datamodel.Node that flow out of exported constructors or the reifier tables) and decides that (R17.1) every write to their state after construction — field store, map update, element store through a receiver/parameter/captured pointer — and every read of a field that has such a write, happens inside the closure of a sync.Once.Do on the same object / after that Do call, or while a sync.Mutex/RWMutex field of the same object is held on all paths (forward must-analysis over the CFG); (R17.2) no cursor (Reader/Seeker/iterator) is stored into a shared node or a package variable; (R17.3) no package variable of the reader packages is written outside init. These make a data race on node state impossible; equality of results under every interleaving is not decided."
 	r.Rule("R17.1", "post-construction accesses to mutable fields of shared node types are synchronised: inside/after sync.Once.Do of the same object, or under a mutex field of the same object held on all paths")
 	r.Rule("R17.2", "no value of a cursor type (io.Reader/io.Seeker implementation, iterator with Next+Done) is stored into a field of a shared node type or into a package-level variable")
-	r.Rule("R17.3", "no package-level variable of the reader packages is written (store, map update, element store) outside package initialisation")
+	r.Rule("R17.3", "(writes are found directly and through repository functions that write through a parameter the variable is handed to) no package-level variable of the reader packages is written (store, map update, element store) outside package initialisation")
 	r.Assumes = append(r.Assumes, "the substrate node and decoded UnixFS data handed to an ADL are immutable values of go-ipld-prime/go-codec-dagpb", "sync.Once and sync.Mutex provide their documented happens-before edges")
 
 	shared := c.sharedTypes()
@@ -384,11 +489,8 @@ func c17(c *Ctx) {
 					continue
 				}
 				n172++
-				vt := st.Val.Type()
-				if mi, ok := st.Val.(*ssa.MakeInterface); ok {
-					vt = mi.X.Type()
-				}
-				if core.IsNilConst(st.Val) || !isCursorT(vt) {
+				carries, vt := c.valueCarriesCursor(st.Val, true)
+				if !carries {
 					continue
 				}
 				// a node type that is itself a Node and a cursor? cursors never implement Node here; report
@@ -397,7 +499,7 @@ func c17(c *Ctx) {
 					continue
 				}
 				nviol++
-				r.Violate("R17.2", fmt.Sprintf("%s/stores-cursor:%s", core.FuncName(fn), strings.Fields(target)[1]), c.P.Pos(stPos), "a "+core.TypeNameOf(vt)+" (cursor) is stored into "+target+": separately obtained readers/iterators would share mutable state")
+				r.Violate("R17.2", fmt.Sprintf("%s/stores-cursor:%s", core.FuncName(fn), strings.Fields(target)[1]), c.P.Pos(stPos), "a "+core.TypeNameOf(vt)+" (a cursor, a self-mutating object, or a composite holding one) is stored into "+target+": separately obtained readers/iterators would share mutable state")
 			}
 		}
 	}
@@ -409,42 +511,18 @@ func c17(c *Ctx) {
 	// ---- R17.3
 	n173 := 0
 	ctl3 := false
-	for _, fn := range c.G.Funcs() {
-		rel, ok := c.P.PkgOf(fn)
-		isCtl := rel == core.Rel(core.ControlPkg)
-		if !ok || !(core.ReaderPkgs[rel] || isCtl) {
+	pk173 := map[string]bool{core.Rel(core.ControlPkg): true}
+	for k := range core.ReaderPkgs {
+		pk173[k] = true
+	}
+	for _, m := range c.G.GlobalMutations(pk173) {
+		rel, _ := c.P.PkgOf(m.Fn)
+		if rel == core.Rel(core.ControlPkg) {
+			ctl3 = true
 			continue
 		}
-		if fn.Name() == "init" || strings.HasPrefix(fn.Name(), "init#") || (fn.Parent() != nil && fn.Parent().Name() == "init") {
-			continue
-		}
-		for _, b := range fn.Blocks {
-			for _, ins := range b.Instrs {
-				var gl *ssa.Global
-				what := ""
-				switch x := ins.(type) {
-				case *ssa.Store:
-					if g, ok := core.RootOfAddr(x.Addr).(*ssa.Global); ok {
-						gl, what = g, "store"
-					}
-				case *ssa.MapUpdate:
-					if u, ok := x.Map.(*ssa.UnOp); ok {
-						if g, ok := core.RootOfAddr(u.X).(*ssa.Global); ok {
-							gl, what = g, "map update"
-						}
-					}
-				}
-				if gl == nil {
-					continue
-				}
-				if isCtl {
-					ctl3 = true
-					continue
-				}
-				n173++
-				r.Violate("R17.3", fmt.Sprintf("%s/writes-global:%s", core.FuncName(fn), gl.Name()), c.P.Pos(ins.Pos()), what+" to package variable "+gl.Name()+" outside init: shared mutable state")
-			}
-		}
+		n173++
+		r.Violate("R17.3", fmt.Sprintf("%s/writes-global:%s", core.FuncName(m.Fn), m.Global.Name()), c.P.Pos(m.Ins.Pos()), m.What+" to package variable "+m.Global.Name()+" outside init: shared mutable state")
 	}
 	r.Control("R17.3/global-write-outside-init", ctl3)
 	if n173 == 0 {
